@@ -15,9 +15,12 @@
     NOT_STARTED, the claim row is NOT touched — that is what the code does), `endWorkflow`
     (`CompleteWorkflowHandler._determine_final_status`: the execution becomes terminal as soon as all stages are
     continuable OR any stage is TERMINAL / CANCELED, even while other stages are live), `sweep`
-    (deletes every claim of the execution iff the EXECUTION is terminal), `cancelLosers` (deliver the pending CancelStages).
+    (iff the EXECUTION is terminal: deletes every claim whose owner stage is not RUNNING / SUSPENDED / PAUSED — the
+    owner-live guard of fix 9adf23a, finding F31), `cancelLosers` (deliver the pending CancelStages).
 
-  `fixSteal = true` mirrors proposed_fixes/F30.diff: a mutex claim whose owner is NOT_STARTED again (re-armed) can be stolen.
+  `fixSteal = true` (the default, the code since fix b2e8739, finding F30): a mutex claim whose owner is NOT_STARTED again
+  (re-armed by a jump) can be taken over.  `fixSteal = false` is the behaviour before that fix, kept only for the
+  clearly labelled legacy witness in Props/C11.lean.
 -/
 import Stab.Model.Basic
 
@@ -39,7 +42,7 @@ structure Stage where
 def live (s : Status) : Bool := s == .running || s == .suspended || s == .paused
 
 structure St where
-  fixSteal : Bool := false
+  fixSteal : Bool := true
   stages : List Stage
   claims : List (Key × Nat) := []
   wfTerminal : Bool := false
@@ -152,6 +155,12 @@ def claimWith (s : St) (i : Nat) (mb cc : Bool) : St × Out :=
           let s' := { s with claims := cs2, stages := s.stages.set i { g with status := .running }, started := i :: s.started }
           ({ s' with cancelQ := s'.cancelQ ++ losers s' i }, .started)
 
+/-- `cleanup_completed_stage_claims` keeps a claim whose owner stage is RUNNING / SUSPENDED / PAUSED -/
+def ownerLive (s : St) (e : Key × Nat) : Bool :=
+  match statusOf s e.2 with
+  | some st => live st
+  | none => false
+
 /-- `CancelStageHandler`: anything not yet complete becomes CANCELED -/
 def cancelOne (s : St) (i : Nat) : St :=
   match statusOf s i with
@@ -183,7 +192,7 @@ def step (s : St) : Op → St × Out
     let sts := s.stages.map (·.status)
     if sts.all Status.isContinuable || sts.contains .terminal || sts.contains .canceled
     then ({ s with wfTerminal := true }, .ok) else (s, .noop)
-  | .sweep => if s.wfTerminal then ({ s with claims := [] }, .ok) else (s, .noop)
+  | .sweep => if s.wfTerminal then ({ s with claims := s.claims.filter (ownerLive s) }, .ok) else (s, .noop)
   | .cancelLosers => ({ cancelAll s s.cancelQ with cancelQ := [] }, .ok)
 
 def run (s : St) (ops : List Op) : St := ops.foldl (fun acc o => (step acc o).1) s
